@@ -8,6 +8,8 @@ import Driver.Elect
 import Driver.Repl
 import Driver.Conn
 import Driver.Engine2
+import Driver.Trans
+import Driver.Ack
 /-! `slockmodel`: reads one operation per line on stdin, prints the model's observation per line. -/
 namespace Driver
 
@@ -18,7 +20,8 @@ def dispatch (line : String) : String :=
   | "#" :: _ => line
   | _ =>
     match handleCodec toks <|> handleQueue toks <|> handleValue toks <|> handleEngine toks <|> handleAof toks
-        <|> handleText toks <|> handleElect toks <|> handleRepl toks <|> handleConn toks <|> handleEngine2 toks with
+        <|> handleText toks <|> handleElect toks <|> handleRepl toks <|> handleConn toks <|> handleEngine2 toks
+        <|> handleTrans toks <|> handleAck toks with
     | some r => r
     | none => "bad-op"
 
